@@ -653,6 +653,13 @@ class CodeGen:
                 (inp["kind"], t)]
             self.emit("%s = %s(__inputs__[%d])" % (nm, ctor, i))
             self.origin[nm] = {"op": "input", "kind": inp["kind"], "t": t}
+        # a type without any declared input gets a default operand here, inside the prelude, so
+        # that a reference can always be resolved to an *operand* (never to an inline allocation)
+        for t, ctor in (("I", "PrivVal(0)"), ("B", "PrivValBool(0)"), ("F", "PrivValFxp(0.0)")):
+            if self.counts[t] == 0:
+                nm = self.new_var(t)
+                self.emit("%s = %s" % (nm, ctor))
+                self.origin[nm] = {"op": "input", "kind": "priv", "t": t}
         self.step({"kind": "inputs"})
         for s in self.plan["body"]:
             self.st(s)
